@@ -622,3 +622,78 @@ def _nested_fns(repo):
             + ",\n  ".join(f"({lean_str(a)}, {lean_str(b)}, {lean_str(c)}, {lean_str(d)}, [" + ", ".join(lean_str(x) for x in e) + "])"
                            for a, b, c, d, e in rows) + "]")
     return rows, lean
+
+
+# ------------------------------------------------------------------------------------------------
+# where is output produced / are instructions executed?  (hypothesis of edge_consumption_adds_up:
+# all work is done by instruction arms of the one dispatch loop, after the charge)
+_WRITE_RX = [("write_str", r"\bout\.write_str\("), ("write!", r"\bwriteln?!\(\s*out\b"), ("write_escaped", r"\bwrite_escaped\(\s*out\b"),
+             ("write_fmt", r"\bout\.write_(?:fmt|char)\("), ("env.format", r"\.format\([^;]*\bout\s*\)"), ("target()", r"\bout\.target\(\)")]
+_EVALCALL_RX = r"(?<!fn )\b(eval_state|do_eval|eval_impl)\("
+_FETCH_RX = r"\binstructions(?:\(\))?\s*\.get\(|\.get\(\s*pc\b"
+
+
+def _arm_of(lines, idx, fn_start):
+    """name of the `Instruction::X … =>` arm of eval_impl's dispatch that line idx belongs to"""
+    arm_indent = None
+    for j in range(fn_start, len(lines)):
+        if re.search(r"\bmatch instr\s*\{", lines[j]):
+            for k in range(j + 1, len(lines)):
+                m = re.match(r"^(\s*)Instruction::\w+", lines[k])
+                if m:
+                    arm_indent = len(m.group(1))
+                    break
+            dispatch = j
+            break
+    else:
+        return "-"
+    if idx <= dispatch or arm_indent is None:
+        return "-"
+    for j in range(idx, dispatch, -1):
+        m = re.match(r"^(\s*)Instruction::(\w+)", lines[j])
+        if m and len(m.group(1)) == arm_indent:
+            return m.group(2)
+        m = re.match(r"^(\s*)_\s*=>", lines[j])
+        if m and len(m.group(1)) == arm_indent:
+            return "_"
+    return "-"
+
+
+@item("C13_OUTPUT_SITES")
+def _output_sites(repo):
+    files = sorted(glob.glob(os.path.join(repo, "minijinja/src/**/*.rs"), recursive=True))
+    rows = []
+    for path in files:
+        rel = os.path.relpath(path, os.path.join(repo, "minijinja/src"))
+        if rel.startswith("compiler/") or rel in ("verif_hooks.rs", "vm/fuel.rs"):
+            continue  # the compiler builds instructions, fuel.rs prices them: neither executes them
+        lines = _strip_comments(open(path, encoding="utf-8").read()).split("\n")
+        for idx, line in enumerate(lines):
+            if re.match(r"\s*(#\[|use\s)", line):
+                continue
+            kinds = []
+            if rel == "vm/mod.rs":
+                kinds += ["write:" + name for name, rx in _WRITE_RX if re.search(rx, line)]
+            kinds += ["eval-call:" + m.group(1) for m in re.finditer(_EVALCALL_RX, line)]
+            if re.search(_FETCH_RX, line):
+                kinds.append("fetch")
+            if not kinds and not re.search(r"\bInstruction::\w+", line):
+                continue
+            enc = _enclosing(lines, idx)
+            arm = "-"
+            if rel == "vm/mod.rs" and enc == "fn eval_impl":
+                fn_start = max(j for j in range(idx + 1) if re.search(r"\bfn eval_impl\s*\(", lines[j]))
+                arm = _arm_of(lines, idx, fn_start)
+            if not kinds:
+                # a pattern on an instruction outside the dispatch loop's arm headers
+                if rel == "vm/mod.rs" and enc == "fn eval_impl":
+                    continue
+                kinds.append("instruction-pattern")
+            for k in kinds:
+                rows.append((rel, enc, arm, k))
+    if not any(k.startswith("write:") for _, _, _, k in rows) or not any(k == "fetch" for _, _, _, k in rows):
+        raise KeyError("no output write / instruction fetch found at all")
+    rows.sort()
+    lean = ("def outputSites : List (String × String × String × String) := [\n  "
+            + ",\n  ".join(f"({lean_str(a)}, {lean_str(b)}, {lean_str(c)}, {lean_str(d)})" for a, b, c, d in rows) + "]")
+    return rows, lean
